@@ -13,4 +13,4 @@ def units(tier):
 
 def bounded(tier, seed):
     from pyvc.native_bridge import bounded_pure
-    return [bounded_pure(tier, "c15", "c15", "forests <= 4 nodes (sampled) x sampled subsets x seg on/off; CSV and GEFF", seed, exhaustive=False)]
+    return [bounded_pure(tier, "c15", "c15", "quick: 24 sampled forests <= 4 nodes; thorough: every forest <= 4 nodes + 60 sampled 5-node forests; x <= 3 (6) sampled subsets x seg on/off; CSV and GEFF written and read back", seed, exhaustive=False)]
